@@ -242,6 +242,11 @@ pub fn run_families(property: &str, tier: &str, fams: Vec<Family>, budget_s: f64
                     // The execution that ran on this thread right before the current one
                     // (scenario index, choices): used to confirm violations that depend on
                     // state a previous simulation left on the thread.
+                    // Breadcrumb: which scenario this worker is exploring (read by the
+                    // dispatcher if the process is killed by the code under test).
+                    let mut crumb = std::env::var("VX_PROGRESS_DIR").ok().and_then(|d| {
+                        std::fs::OpenOptions::new().create(true).write(true).truncate(true).open(format!("{}/w{}", d, my)).ok()
+                    });
                     let last_exec: std::cell::RefCell<Option<(usize, Vec<u16>)>> = std::cell::RefCell::new(None);
                     let prev_of_found: std::cell::RefCell<Option<(usize, Vec<u16>)>> = std::cell::RefCell::new(None);
                     loop {
@@ -254,6 +259,11 @@ pub fn run_families(property: &str, tier: &str, fams: Vec<Family>, budget_s: f64
                         continue;
                     }
                     let sc = &fam.scenarios[i];
+                    if let Some(f) = crumb.as_mut() {
+                        use std::io::{Seek, SeekFrom, Write};
+                        let _ = f.seek(SeekFrom::Start(0));
+                        let _ = write!(f, "{:<240}\n", format!("{} :: {} (scenario {})", fam.name, sc.label, i));
+                    }
                     let mut outcomes: BTreeSet<u64> = BTreeSet::new();
                     let mut first_summary: Option<(u64, Vec<u16>)> = None;
                     let mut found: Option<(Vec<u16>, Vec<Viol>)> = None;
